@@ -33,6 +33,7 @@ func init() {
 		ruleCollectionExhausted(c, "C01-R4", fnLoadTxn, collSnapDBIs, "the DBIs of the snapshot", nil)
 		ruleLoadBody(c, "C01-R4", "C01-R4", "C01-R4", "C01-R4", "C01-R4")
 		ruleUpdateLoop(c, "C01-R4")
+		ruleIterNextFaithful(c, "C01-R4")
 		ruleCaptureBeforeProject(c, "C01-R5")
 		ruleMainToShadow(c, "C01-R5", "C01-R5", "C01-R5")
 		ruleEmptyPut(c, "C01-R5")
@@ -40,6 +41,7 @@ func init() {
 		ruleRawReadWriters(c, "C01-R7")
 		ruleNameLayout(c, "C01-R7")
 		c.Rule("C01-R6", "PUBLISH: the stale-marker cutoff is off unless the sweeper is enabled; the id reported as synced is bounded by what LMDB recorded (else a local write is never uploaded and replicas cannot converge)")
+		ruleFatal(c, "C01-R6")
 		ruleCutoffProvenance(c, "C01-R6")
 		ruleSyncedIdBound(c, "C01-R6")
 	})
@@ -81,6 +83,7 @@ func init() {
 		// timestamp, the load-time cutoff, this transaction's id)
 		ruleLoadBody(c, "C02-R8", "C02-R8", "C02-R8", "C02-R8", "C02-R8")
 		ruleEntryDecodedIntoZero(c, "C02-R8")
+		ruleIterNextFaithful(c, "C02-R8")
 		sampleTable(c, t, 40)
 		c.Notes = append(c.Notes, "universe: timestamps "+fmtU(u.TS)+", values "+fmtS(u.Vals)+", format versions "+fmtU(u.FVs))
 	})
@@ -282,7 +285,8 @@ func init() {
 		c.Rule("C18-R6", "PRE-V3 DBI creation")
 		c.Rule("C18-R7", "CANCEL")
 		ruleOneTxn(c, "C18-R1", fnLoadOnce, fnLoadTxn, []string{fnMainToSh, fnShToMain, fnStratUpd, "lmdbenv.DBIExists", "(*lmdb.Txn).OpenDBI"})
-		ruleErrFlow(c, "C18-R2", fnLoadTxn, fnMainToSh, fnShToMain, fnStratUpd, fnIterUpd, iterUpdateCallback(c.P), fnEmptyPut, "?lmdbenv/strategy.doPut", "?lmdbenv/strategy.setNewVal", "lmdbenv/strategy.iterBoth", "syncer.(*NativeIterator).Next", fnReadDBI)
+		ruleCaptureBeforeProject(c, "C18-R2")
+		ruleErrFlow(c, "C18-R2", "snapshot.(*DBI).Map", fnLoadTxn, fnMainToSh, fnShToMain, fnStratUpd, fnIterUpd, iterUpdateCallback(c.P), fnEmptyPut, "?lmdbenv/strategy.doPut", "?lmdbenv/strategy.setNewVal", "lmdbenv/strategy.iterBoth", "syncer.(*NativeIterator).Next", fnReadDBI)
 		ruleLoadErrReturned(c, "C18-R2")
 		ruleNextEOF(c, "C18-R2")
 		ruleVersionGates(c, "C18-R3")
@@ -379,10 +383,12 @@ func init() {
 		c.Rule("C16-R5", "RUN-ONCE exit and disappeared instances")
 		c.Rule("C16-R6", "LIMITER")
 		ruleDownloaderLoad(c, "C16-R1", "C16-R2", "C16-R4")
+		ruleListingIncludesOwn(c, "C16-R4")
 		ruleConsumedClosed(c, "C16-R3")
 		ruleRetryAndNotify(c, "C16-R4")
 		ruleMarkCorrupt(c, "C16-R4")
 		ruleReceiverListing(c, "C16-R4", "C16-R4")
+		ruleListingNotReordered(c, "C16-R4", fnRecvRun, fnCleanerRun)
 		ruleCollectionExhausted(c, "C16-R4", fnRecvRun, `\(simpleblob\.BlobList\)\.Names@[\w~]+`, "the names of the listing", nil)
 		ruleCollectionExhausted(c, "C16-R4", fnRecvRun, `makemap@[\w~]+`, "the newest snapshot of every instance", nil)
 		ruleRunOnceExit(c, "C16-R5")
@@ -412,6 +418,7 @@ func init() {
 		ruleLoadBody(c, "C20-R5", "C20-R5", "C20-R5", "C20-R5", "C20-R5")
 		ruleMainToShadow(c, "C20-R6", "C20-R6", "C20-R6")
 		ruleShadowToMain(c, "C20-R6", "C20-R6")
+		ruleErrFlow(c, "C20-R4", "snapshot.(*DBI).Map", "syncer.dupSortHackEncode", "syncer.dupSortHackDecode")
 		ruleEmptyPut(c, "C20-R6")
 		ruleShadowCreateMask(c, "C20-R6")
 	})
@@ -511,6 +518,7 @@ func init() {
 		ruleBuildParse(c, "C15-R2")
 		ruleSanitiser(c, "C15-R3")
 		ruleReceiverListing(c, "C15-R4", "C15-R4")
+		ruleListingNotReordered(c, "C15-R4", fnRecvRun, fnCleanerRun)
 		ruleCollectionExhausted(c, "C15-R4", fnRecvRun, `\(simpleblob\.BlobList\)\.Names@[\w~]+`, "the names of the listing", nil)
 		ruleCollectionExhausted(c, "C15-R4", fnRecvRun, `makemap@[\w~]+`, "the newest snapshot of every instance", nil)
 		ruleCleanerDeletes(c, "C15-R4", "C15-R4", "C15-R4", "C15-R4", "C15-R4", "C15-R4")
@@ -538,6 +546,7 @@ func init() {
 		ruleGetGlobal(c, "C17-R5")
 		ruleCancellableLoops(c, "C17-R6")
 		ruleWaitAfterCancel(c, "C17-R6")
+		ruleDownloaderLoad(c, "C17-R6", "C17-R6", "C17-R6")
 		ruleSleepContext(c, "C17-R6")
 		ruleLimiter(c, "C17-R7")
 		c.Rule("C17-R8", "SHARED-FIELDS: every struct field written after construction and reachable from goroutines not ordered by start-up is accessed under a common lock (static lockset over the VTA call graph)")
@@ -570,6 +579,7 @@ func init() {
 		ruleCollectionExhausted(c, "C07-R4", "snapshot.(*Snapshot).Unmarshal", `\(\*csproto\.Decoder\)\.More@[\w~]+`, "the fields of the message", nil)
 		ruleCollectionExhausted(c, "C07-R4", "snapshot.(*Meta).Unmarshal", `\(\*csproto\.Decoder\)\.More@[\w~]+`, "the fields of the message", nil)
 		ruleEndTestEveryField(c, "C07-R4", "snapshot.(*KV).Unmarshal", "snapshot.(*DBI).indexData")
+		ruleWholeStream(c, "C07-R3")
 		// a truncated or failing read of the container surfaces as an error (no silently shortened snapshot)
 		ruleErrFlow(c, "C07-R3", "snapshot.LoadData", "snapshot.(*Snapshot).Unmarshal", "snapshot.NewDBIFromData", "snapshot.(*DBI).indexData", "snapshot.(*KV).Unmarshal")
 		ruleNoReceiverReset(c, "C07-R5")
@@ -597,6 +607,7 @@ func init() {
 		ruleDownloaderLoad(c, "C08-R4", "C08-R4", "C08-R4")
 		ruleMarkCorrupt(c, "C08-R4")
 		ruleReceiverListing(c, "C08-R4", "C08-R4")
+		ruleListingNotReordered(c, "C08-R4", fnRecvRun, fnCleanerRun)
 		ruleCollectionExhausted(c, "C08-R4", fnRecvRun, `\(simpleblob\.BlobList\)\.Names@[\w~]+`, "the names of the listing", nil)
 		ruleCollectionExhausted(c, "C08-R4", fnRecvRun, `makemap@[\w~]+`, "the newest snapshot of every instance", nil)
 		ruleRetryAndNotify(c, "C08-R4")
